@@ -26,7 +26,7 @@
    set and on the tours at the members only). [recompute_T]: new_fast_inv per recomputed type. Then one lemma per
    public modification. *)
 From Coq Require Import Sorted.
-From RS Require Import Base BaseFacts Network Tour Transition TransSpec TransStmts TransFacts TransFacts2
+From RS Require Import SchedPeel Base BaseFacts Network Tour Transition TransSpec TransStmts TransFacts TransFacts2
   Schedule SchedInv SchedStruct SchedCostsFacts SchedListFacts.
 Local Open Scope Z_scope.
 
@@ -567,7 +567,7 @@ Lemma update_tours_frame s vehicles tours forms usage dummies ids dids uns costs
   (forall x, x <> p -> x <> r -> vget x vehicles1 = vget x vehicles /\ vget x tours2 = vget x tours) /\
   (forall x ty ty', vget x vehicles1 = Some ty -> vget x vehicles = Some ty' -> ty = ty').
 Proof.
-  intros H. unfold update_tours in H.
+  intros H. apply update_tours_peel in H. unfold update_tours_prefix in H.
   monp H. mon H. monp H. mon H. monp H. inversion H; subst; clear H.
   assert (Q : (forall x, x <> p -> vget x vehicles1 = vget x vehicles /\ vget x l3 = vget x tours) /\
               (forall x ty ty', vget x vehicles1 = Some ty -> vget x vehicles = Some ty' -> ty = ty')).
